@@ -1,5 +1,7 @@
 import GA.Proofs.EntryPost
 import GA.Proofs.EntryMerge
+import GA.Proofs.EntryLink
+import GA.Proofs.EntryNode
 /-
   C05 / C03 — what one regular-file entry leaves behind.  The statement is about the real sequence of
   system calls `createTarFile` issues (open+write, lchown, lsetxattr…, chmod, utimes) run on the kernel
@@ -52,5 +54,29 @@ theorem dir_entry_merges (dp : Path) (path xd : Str) (e : Entry) (o : Opts) (w :
     ⟨hw, hl, ⟨n0, hi, hk⟩, Frame.refl i w⟩ hok
   obtain ⟨_, _, ⟨n, hn, hf⟩, hfr⟩ := h
   exact ⟨hfr.1, hfr.2, n, hn, hf.1, hf.2.1, hf.2.2.1, hf.2.2.2⟩
+
+/-- **hard-link entries share an inode with their target**: after a successful `createTarFile` for a
+    `TypeLink` entry the entry's path and `Join(destination, Linkname)` resolve to one and the same inode -/
+theorem link_entry_shares_inode (dp : Path) (path xd : Str) (e : Entry) (o : Opts) (w : World)
+    (hw : LW dp w) (hp : LexArg dp path) (hxd : CleanAbs xd) (hdp : pathComps xd = dp) (hlink : e.typ = .link)
+    (hok : ((createTarFileP path xd e o).run w).1 = .ok) :
+    ∃ i, ((createTarFileP path xd e o).run w).2.fs.lookup (pathComps path) = some i ∧
+      ((createTarFileP path xd e o).run w).2.fs.lookup (pathComps (join xd e.linkname)) = some i := by
+  obtain ⟨_, i, h1, h2⟩ := createTarFile_link_shares dp path xd e o hp hxd hdp hlink w hw hok
+  exact ⟨i, h1, h2⟩
+
+/-- **a device entry is reproduced exactly** (outside a user namespace): node type, device number, all
+    twelve permission bits, clamped time and owner -/
+theorem dev_entry_exact (dp : Path) (path xd : Str) (e : Entry) (o : Opts) (w : World)
+    (hw : LW dp w) (hp : LexArg dp path) (hdev : e.typ = .chr ∨ e.typ = .blk) (huns : o.inUserNS = false)
+    (hnew : w.fs.lookup (pathComps path) = none)
+    (hok : ((createTarFileP path xd e o).run w).1 = .ok) :
+    ∃ i n, ((createTarFileP path xd e o).run w).2.fs.lookup (pathComps path) = some i ∧
+      ((createTarFileP path xd e o).run w).2.fs.inode i = some n ∧
+      n.kind = kindOfTyp e.typ ∧ n.rdev = (e.devmajor, e.devminor) ∧ n.perm = e.mode &&& 0o7777 ∧
+      n.mtime = some (boundTime e.mtime) ∧ (o.noLchown = false → (n.uid, n.gid) = o.chownOpts.getD (e.uid, e.gid)) := by
+  obtain ⟨_, i, n, hl, hi, ⟨hk, hr⟩, hpm, hmt, hown⟩ :=
+    createTarFile_dev_exact dp path xd e o hp hdev huns w ⟨hw, hnew⟩ hok
+  exact ⟨i, n, hl, hi, hk, hr, hpm, hmt, hown⟩
 
 end GA.C05
